@@ -1,6 +1,7 @@
 package main
 
 import (
+	"sync/atomic"
 	"bytes"
 	"context"
 	"fmt"
@@ -37,6 +38,11 @@ type axiomText struct {
 var symRe = regexp.MustCompile(`[A-Za-z_][A-Za-z0-9_!.$]*`)
 
 // buildQuery assembles the SMT-LIB text of one obligation.
+var groundNanos int64
+
+// buildSem limits how many queries are built at the same time (building is CPU work inside this process)
+var buildSem = make(chan struct{}, 14)
+
 func (v *Verifier) buildQuery(o *Obligation, withModel bool, refute bool, ground bool) string {
 	var sb strings.Builder
 	sb.WriteString("(set-option :produce-models true)\n(set-logic ALL)\n")
@@ -115,11 +121,13 @@ func (v *Verifier) buildQuery(o *Obligation, withModel bool, refute bool, ground
 	}
 	if ground {
 		all := append(axTexts, plain...)
-		skGoal, skDecls := skolemizeGoal(o.Goal)
+		skGoal, skDecls := skolemizeGoalMode(o.Goal, v.groundExtended(o))
 		for _, d := range skDecls {
 			sb.WriteString(d + "\n")
 		}
-		inst, nq, ni, newGoal := groundInstantiate(all, skGoal, 3, 600)
+		t0g := time.Now()
+		inst, nq, ni, newGoal := groundInstantiateMode(all, skGoal, 3, 600, v.groundExtended(o))
+		atomic.AddInt64(&groundNanos, int64(time.Since(t0g)))
 		groundGoal = newGoal
 		sb.WriteString(fmt.Sprintf("; ground mode: %d quantified assumptions replaced by %d instances\n", nq, ni))
 		plain = inst
@@ -318,12 +326,15 @@ func (v *Verifier) solveAll(obls []*Obligation, workDir string, timeoutS int, jo
 				to = 3
 			}
 			if !o.Known {
-				if err := os.WriteFile(file, []byte(v.buildQuery(o, true, false, false)), 0o644); err != nil {
+				buildSem <- struct{}{}
+				plainText := v.buildQuery(o, true, false, false)
+				<-buildSem
+				if err := os.WriteFile(file, []byte(plainText), 0o644); err != nil {
 					o.Result, o.Output = "error", err.Error()
 					return
 				}
 				gfile := strings.TrimSuffix(file, ".smt2") + ".ground.smt2"
-				gerr := os.WriteFile(gfile, []byte(v.buildQuery(o, true, false, true)), 0o644)
+				var gerr error
 				type pres struct {
 					best   *solveResult
 					all    []solveResult
@@ -345,9 +356,51 @@ func (v *Verifier) solveAll(obls []*Obligation, workDir string, timeoutS int, jo
 				if gerr == nil && !o.Canary {
 					n = 2
 					go func() {
-						// second formulation: quantified assumptions instantiated by the generator itself and dropped
-						time.Sleep(150 * time.Millisecond)
+						// second formulation: quantified assumptions instantiated by the generator itself and dropped.
+						// It is built only if the plain query has not been decided within 300 ms (most are).
+						select {
+						case <-time.After(150 * time.Millisecond):
+						case <-rctx.Done():
+							ch <- pres{nil, nil, "", true}
+							return
+						}
+						buildSem <- struct{}{}
+						groundText := v.buildQuery(o, true, false, true)
+						<-buildSem
+						if rctx.Err() != nil || os.WriteFile(gfile, []byte(groundText), 0o644) != nil {
+							ch <- pres{nil, nil, "", true}
+							return
+						}
 						b, a, d := portfolioCtx(rctx, gfile, to, sem, solvers)
+						ch <- pres{b, a, d, true}
+					}()
+				}
+				if gerr == nil && !o.Canary && os.Getenv("GOVC_NO3") == "" {
+					// third formulation (started late, only hard obligations get here): the ground-instantiated query with the
+					// quantifiers that remain nested inside other assumptions weakened away, i.e. a quantifier-free set of
+					// assumptions that is implied by the original one
+					n = 3
+					go func() {
+						select {
+						case <-time.After(1500 * time.Millisecond):
+						case <-rctx.Done():
+							ch <- pres{nil, nil, "", true}
+							return
+						}
+						qfile := strings.TrimSuffix(file, ".smt2") + ".groundqf.smt2"
+						eo := *o
+						eo.extGround = true
+						buildSem <- struct{}{}
+						etext := v.buildQuery(&eo, true, false, true)
+						<-buildSem
+						if os.WriteFile(qfile, []byte(weakenAssumptions(etext)), 0o644) != nil {
+							ch <- pres{nil, nil, "", true}
+							return
+						}
+						b, a, d := portfolioCtx(rctx, qfile, to, sem, solvers[:2])
+						if b != nil && b.Result != "unsat" {
+							b = nil // a weakened query proves nothing by being satisfiable
+						}
 						ch <- pres{b, a, d, true}
 					}()
 				}
@@ -407,11 +460,20 @@ func (v *Verifier) solveAll(obls []*Obligation, workDir string, timeoutS int, jo
 							po := *o
 							po.Goal = part
 							pfile := strings.TrimSuffix(file, ".smt2") + fmt.Sprintf(".part%d.smt2", pi)
-							if err := os.WriteFile(pfile, []byte(v.buildQuery(&po, true, false, true)), 0o644); err != nil {
+							po.extGround = true
+							ptext := v.buildQuery(&po, true, false, true)
+							if err := os.WriteFile(pfile, []byte(ptext), 0o644); err != nil {
 								okCh <- -1
 								return
 							}
 							pbest, _, _ := portfolio(pfile, to, sem, solvers)
+							if pbest == nil || pbest.Result != "unsat" {
+								// once more with the nested quantifiers of the assumptions weakened away (quantifier-free assumptions)
+								qfile := strings.TrimSuffix(pfile, ".smt2") + ".qf.smt2"
+								if os.WriteFile(qfile, []byte(weakenAssumptions(ptext)), 0o644) == nil {
+									pbest, _, _ = portfolio(qfile, to, sem, solvers[:2])
+								}
+							}
 							if pbest == nil || pbest.Result != "unsat" {
 								okCh <- -1
 								return
@@ -623,3 +685,28 @@ func weakenSx(s *sx, pos bool, ok *bool) *sx {
 	*ok = false
 	return s
 }
+
+// weakenAssumptions: every assumption of a query that still contains a quantifier is weakened to a quantifier-free
+// formula it implies (dropNestedQuantifiers); the goal is left as it is.
+func weakenAssumptions(query string) string {
+	lines := strings.Split(query, "\n")
+	goalIdx := -1
+	for i, ln := range lines {
+		if strings.HasPrefix(ln, "; goal:") {
+			goalIdx = i
+		}
+	}
+	var keep []string
+	for i, ln := range lines {
+		if strings.HasPrefix(ln, "(assert ") && (goalIdx < 0 || i < goalIdx) && (strings.Contains(ln, "(forall ") || strings.Contains(ln, "(exists ")) {
+			ln = dropNestedQuantifiers(ln)
+		}
+		keep = append(keep, ln)
+	}
+	return strings.Join(keep, "\n")
+}
+
+// groundExtended: the extended ground mode (nested quantifiers hoisted and instantiated, multi-patterns, select-over-store
+// simplification of cell arrays, deep skolemisation of the goal) is used for the late fallback attempts only; the first
+// ground attempt is the classic, cheaper one.
+func (v *Verifier) groundExtended(o *Obligation) bool { return o.extGround }
